@@ -149,7 +149,8 @@ class C05Oracle(BaseOracle):
         self.probe("sum_checked")
         if got_sum != 0:
             self.probe("sum_nonzero")
-        if not num_equal(got_sum, want_sum, tol):
+        fz = w.cfg.get("loss", {}).get("family") == "river"     # river reports doubles: judged to rounding
+        if not num_equal(got_sum, want_sum, tol, fz):
             return self.v("sum-vs-mean-explained-loss", "sum(values)=%r expected %r over %d explained rows (%s)"
                           % (got_sum, want_sum, N, "original" if original else "imputer"),
                           explainer=k, cls=ecfg["cls"], original=bool(original))
@@ -223,7 +224,7 @@ class C05Oracle(BaseOracle):
         want = {f: sums[f] / N for f in names}
         self.probe("per_feature_checked")
         self.probe("per_feature_checked_original" if original else "per_feature_checked_imputer")
-        msg = dict_equal(ret, want, tol)
+        msg = dict_equal(ret, want, tol, fz)
         if msg:
             return self.v("per-feature-values", msg + (" (%s mode, %d rows)" % ("original" if original else "imputer", N)),
                           explainer=k, cls=ecfg["cls"], original=bool(original))
